@@ -22,6 +22,10 @@
 #include "c08_harness.h"
 #include "c08_string.h"
 size_t g_n0;
+#ifndef C08_NMAX
+#define C08_NMAX VC_MAXOBJ /* bounded units: their own bound, also in witness mode */
+#define C08_WITN 6
+#endif
 const char *g_fp; char g_fv; /* ghost frame byte: a byte of the destination object outside dst[0..n) */
 #include "compat/libc/string/memcpy.c"
 
@@ -38,9 +42,9 @@ void harness(void)
     WIT(size_t, tail);
     WIT(size_t, k);
     WIT(size_t, f);
-    WIT_ARR(char, cs, 6);
-    WIT_ARR(char, cd, 6);
-    __CPROVER_assume(n <= VC_MAXOBJ && tail <= 8 && so <= C08_MAXOFF && dof <= C08_MAXOFF && delta <= VC_MAXOBJ);
+    WIT_ARR(char, cs, C08_WITN);
+    WIT_ARR(char, cd, C08_WITN);
+    __CPROVER_assume(n <= C08_NMAX && tail <= 8 && so <= C08_MAXOFF && dof <= C08_MAXOFF && delta <= C08_NMAX);
 #ifdef N
     __CPROVER_assume(n == N);
 #endif
